@@ -1,15 +1,14 @@
 from pyvc.runner import Prop, Fn, Lem, Ground, Native
+from props.parser_common import expression_callbacks, property_callbacks, file_callbacks, ASSUMPTIONS
 
 PROP = Prop(
     'C01',
-    modules=[],
-    tasks=[],
+    modules=['contracts.parser_c01'],
+    tasks=[Ground('bounded.parser_ground.generated_grammar'), *expression_callbacks('C01'), *property_callbacks('C01')],
     bounded=[Native('bounded.parser_native.parse_trees')],
-    level='exploration',
-    explanation='BOUNDED at this commit: the deciding part of this property lies in third-party code (Lark LALR parser and lexer; '
-                'attrs.asdict / json / argparse for the CLI), which no contract on /repo code can decide; the parser callbacks '
-                'are being put under contract separately.',
-    assumptions=['A-LARK: Lark decides precedence, associativity, layout, accept/reject, longest match from the grammar text',
-                 'A-3P: attrs.asdict, json.dumps, argparse'],
-    trusted_base=['CPython', 'lark 1.3.1'],
+    dep_tags=['C03', 'C05', 'C16', 'C02'],
+    level='other',
+    explanation='proved: the tree-building callbacks (operator identity and operand order for all 16 binary operators, negation / minus, literals, references, field/index chains, range exclusivity, pattern roles for all five patterns, INF default and ms conversion of time bounds, scope roles, disjunction membership and order for widths 2-4) build exactly the stated nodes from their children; ground: the embedded grammar module equals the generator output and the operator tables match the grammar tokens. BOUNDED (A-LARK): which tree the LALR parser assigns to a text. Open finding F7.',
+    assumptions=ASSUMPTIONS,
+    trusted_base=['z3 5.1.0', 'pyvc symbolic executor', 'lark 1.3.1 (bounded only)'],
 )
